@@ -31,6 +31,12 @@ def tv_compare(name, prog, tv):
     n = 0
     for si, (encl_row, impl_row) in enumerate(zip(tv, prog["tv_impl"])):
         st = prog["tv_states"][si]
+        if any(x is None for x in impl_row):
+            # the implementation returns NaN at this state: the program must be undefined there too
+            if all(V.interval_of(e) is None for e, x in zip(encl_row, impl_row) if x is None):
+                continue
+            bad.append({"config": name, "program": prog["name"], "state": st, "impl": "NaN", "model": "defined"})
+            continue
         scale = sum(abs(x) for x in impl_row[:-1]) + 1e-300   # contributions are beta*A_k; the last output is T*sum
         for k, (e, x) in enumerate(zip(encl_row, impl_row)):
             n += 1
@@ -50,7 +56,7 @@ def run(ctx):
     impl = V.run_harness("c02", ctx)
     gen_files = sorted(os.path.join(ctx.gen, f) for f in os.listdir(ctx.gen) if f.endswith(".v"))
     lib = V.check_props(ctx, PROP_FILES, gen_files)
-    res = V.coqc_many(gen_files, ctx, timeout=900)
+    res = V.coqc_many(gen_files, ctx, timeout=3000)
     lib_obl = lib["obligations"]
     obligations = lib_obl
     discharged = lib["discharged"]
